@@ -11,7 +11,7 @@ PROPERTY = "C11"
 RULE = ("config-exhaustive: EVERY (n_features 1..7 quick / 1..9 thorough, plus wide inputs 11-12 / 10-14 columns at degree <= 3 so that two-digit names occur) x (degree 0..6 quick / 0..8 thorough, degree 0 only "
         "with the bias column) x interaction_only x include_bias x kind in {poly, poly-slow}, on a matrix whose rows are distinct "
         "primes so that, by unique factorisation, the value in an output column identifies its monomial exactly; "
-        "real-matrices: Hypothesis-drawn configuration and dyadic real matrix (zeros, negatives, int64/float32/float64). "
+        "real-matrices: Hypothesis-drawn configuration and dyadic real matrix (zeros, negatives, int64/float32/float64), transformed in four memory layouts, twice, and followed by a second batch of the same shape through the same fitted object (right columns; the first result keeps its values). "
         "Oracle: sklearn PolynomialFeatures (same arguments) column by column, and feature names parsed into exponent multisets. "
         "Non-trivial: degree >= 2. Distinct = distinct configuration (exhaustive clause) / distinct case.")
 ASSUMPTIONS = ["PolynomialFeatures of the installed scikit-learn is the reference",
@@ -140,6 +140,15 @@ def check_real(case):
     # other memory layouts of the same matrix and a second call on the same fitted object give the same columns
     again = ef.transform(X)
     require(np.array_equal(np.asarray(again), np.asarray(out)), "second-call-differs", "", facts)
+    # another batch of the same shape through the same fitted object: right columns, and the earlier result (still held by the caller,
+    # as when mini-batches are collected in a list) keeps its values
+    kept = np.array(out, copy=True)
+    X2 = (X[::-1] + 1).astype(dt)
+    out_b = ef.transform(X2)
+    ref_b = PolynomialFeatures(degree=cfg["degree"], interaction_only=cfg["interaction_only"], include_bias=cfg["include_bias"]).fit_transform(X2)
+    require(out_b.shape == ref_b.shape and np.array_equal(np.asarray(out_b, dtype=np.float64), np.asarray(ref_b, dtype=np.float64)),
+            "second-batch-differs", "another batch of the same shape through the same object does not give PolynomialFeatures' columns", facts)
+    require(np.array_equal(np.asarray(out), kept), "earlier-result-overwritten", "the array returned by the first transform changed when a second batch was transformed", facts)
     for lname, Xv in (("F-order", np.asfortranarray(X.copy())), ("non-contiguous", np.repeat(X, 2, axis=1)[:, ::2]), ("row-view", np.vstack([X, X])[::2])):
         if Xv.shape != X.shape:
             Xv = Xv[:X.shape[0]]
